@@ -693,7 +693,7 @@ def check_axis_symmetry(ctx, rep):
         for f in ctx.prog.func(CQ + q, required=False) or []:
             if f.body is None:
                 continue
-            b = name_bag(f)
+            b = {k: v for k, v in name_bag(f).items() if k not in ("op<", "op<=", "op>", "op>=", "op==", "op!=", "op&&", "op||", "op!")}
             if not any(swap_axis(k) != k for k in b):
                 continue
             n += 1
